@@ -343,6 +343,63 @@ func checkC19(p *Prog, r *Report) {
 					} else {
 						continue
 					}
+					/* The same test from the other end: what is left of the
+					pause, time.Until(last.Add(pause)) — possibly clamped
+					with max(0, …) — compared with zero. */
+					if 0 == k {
+						left := stripConv(since, true)
+						if mc, isCall := left.(*ssa.Call); isCall {
+							if b, isB := mc.Common().Value.(*ssa.Builtin); isB && "max" == b.Name() && 2 == len(mc.Common().Args) {
+								for q, a := range mc.Common().Args {
+									if z, isZ := constInt(a); isZ && 0 == z {
+										left = stripConv(mc.Common().Args[1-q], true)
+									}
+								}
+							}
+						}
+						uc, isUntil := left.(*ssa.Call)
+						if !isUntil || "time.Until" != calleeName(uc.Common()) {
+							continue
+						}
+						ac, isAdd := stripConv(uc.Common().Args[0], true).(*ssa.Call)
+						if !isAdd || "(time.Time).Add" != calleeName(ac.Common()) {
+							continue
+						}
+						if fv, _ := loadedField(ac.Common().Args[0]); fv != last {
+							continue
+						}
+						if d, isC := constInt(ac.Common().Args[1]); !isC || d != pause {
+							rUn.Bad(fnName(fn)+":pause-constant", posOf(ifi), "the calm test does not use PlainWritePause")
+						}
+						op := bo.Op
+						if !sinceLeft {
+							switch op {
+							case token.GTR:
+								op = token.LSS
+							case token.LSS:
+								op = token.GTR
+							case token.GEQ:
+								op = token.LEQ
+							case token.LEQ:
+								op = token.GEQ
+							}
+						}
+						/* left op 0 */
+						elapsedSucc := -1
+						switch op {
+						case token.GTR: /* something left: not elapsed */
+							elapsedSucc = 1
+						case token.LEQ:
+							elapsedSucc = 0
+						}
+						if elapsedSucc >= 0 {
+							calm, notCalm = ifi, 1-elapsedSucc
+							if edgeDominates(ifi, elapsedSucc, st) {
+								okEdge = true
+							}
+						}
+						continue
+					}
 					sc, ok := since.(*ssa.Call)
 					if !ok || "time.Since" != calleeName(sc.Common()) {
 						continue
@@ -595,6 +652,18 @@ func checkC19(p *Prog, r *Report) {
 				var droots []Root
 				var dwalk func(v ssa.Value, depth int)
 				dwalk = func(v ssa.Value, depth int) {
+					/* max(0, d): never before d, and d is never negative
+					when it matters. */
+					if mc, isCall := stripConv(v, true).(*ssa.Call); isCall && depth < 6 {
+						if b, isB := mc.Common().Value.(*ssa.Builtin); isB && "max" == b.Name() && 2 == len(mc.Common().Args) {
+							for q, a := range mc.Common().Args {
+								if z, isZ := constInt(a); isZ && 0 == z {
+									dwalk(mc.Common().Args[1-q], depth+1)
+									return
+								}
+							}
+						}
+					}
 					if bo, ok := stripConv(v, true).(*ssa.BinOp); ok && depth < 6 && (token.ADD == bo.Op || token.SUB == bo.Op) {
 						dwalk(bo.X, depth+1)
 						dwalk(bo.Y, depth+1)
